@@ -260,7 +260,12 @@ def work_generic(prop, tier, seed, widx, nworkers):
                     case['gate_saves'] = rng.choice([0.5, 1.0])
                 if getattr(built, 'events2', False):
                     case['events2'] = True
-                if prop == 'C14' and rng.random() < 0.2:
+                if prop == 'C14' and getattr(built, 'events2', False) and rng.random() < 0.15:
+                    # the first event manager raises in one of its callbacks; the second one must still see a consistent lifecycle
+                    case['collab_faults'] = [[rng.choice(['pipeline_start', 'pipeline_start', 'node_start', 'node_complete', 'pipeline_complete']),
+                                              rng.randint(0, 2)]]
+                    acc.counters['manager_fault_cases'] = acc.counters.get('manager_fault_cases', 0) + 1
+                elif prop == 'C14' and rng.random() < 0.2:
                     # an artifact store that raises at its k-th save (the event managers do not raise)
                     case['store'] = True
                     case['write_once'] = False
